@@ -10,6 +10,7 @@ use datacake_eventual_consistency::verif::{
 };
 use datacake_eventual_consistency::{Document, DocumentMetadata, Storage};
 use datacake_node::Clock;
+use datacake_lmdb::LmdbStorage;
 use datacake_sqlite::SqliteStorage;
 
 use crate::faulty::{Directive, FaultyStore};
@@ -23,11 +24,13 @@ const KS: &str = "ks";
 pub enum Inner {
     Mem(Arc<MemStore>),
     Sqlite(Arc<SqliteStorage>),
+    Lmdb(Arc<LmdbStorage>),
 }
 
 enum Group {
     Mem(KeyspaceGroup<FaultyStore<MemStore>>, Arc<parking_lot::Mutex<Directive>>),
     Sqlite(KeyspaceGroup<FaultyStore<SqliteStorage>>, Arc<parking_lot::Mutex<Directive>>),
+    Lmdb(KeyspaceGroup<FaultyStore<LmdbStorage>>, Arc<parking_lot::Mutex<Directive>>),
 }
 
 pub struct ActorDomain {
@@ -52,6 +55,11 @@ fn new_group(inner: &Inner) -> Group {
                 let d = fs.next.clone();
                 Group::Sqlite(KeyspaceGroup::new(Arc::new(fs), clock).await, d)
             },
+            Inner::Lmdb(s) => {
+                let fs = FaultyStore::new(s.clone());
+                let d = fs.next.clone();
+                Group::Lmdb(KeyspaceGroup::new(Arc::new(fs), clock).await, d)
+            },
         };
         // `keyspace_purge_task` purges once immediately when it is first scheduled, then hourly; let that
         // first (empty) round pass so that it cannot land in the middle of an observation of this case.
@@ -69,6 +77,10 @@ impl ActorDomain {
         let dir = scratch_dir(&format!("actor-{}", tag));
         let inner = match kind {
             "sqlite" => Inner::Sqlite(Arc::new(runtime().block_on(SqliteStorage::open(dir.join("db.sqlite"))).expect("sqlite"))),
+            "lmdb" => {
+                std::fs::create_dir_all(dir.join("lmdb")).unwrap();
+                Inner::Lmdb(Arc::new(runtime().block_on(LmdbStorage::open(dir.join("lmdb"))).expect("lmdb")))
+            },
             _ => Inner::Mem(Arc::new(MemStore::default())),
         };
         let group = Some(new_group(&inner));
@@ -249,6 +261,7 @@ impl Domain for ActorDomain {
             let r = match &g {
                 Group::Mem(g, _) => runtime().block_on(g.load_states_from_storage()).map_err(|e| e.to_string()),
                 Group::Sqlite(g, _) => runtime().block_on(g.load_states_from_storage()).map_err(|e| e.to_string()),
+                Group::Lmdb(g, _) => runtime().block_on(g.load_states_from_storage()).map_err(|e| e.to_string()),
             };
             self.group = Some(g);
             return if r.is_ok() { "ok".into() } else { "err".into() };
@@ -256,6 +269,7 @@ impl Domain for ActorDomain {
         match self.group.as_ref().expect("group") {
             Group::Mem(g, n) => runtime().block_on(run_op(g, n, t, &self.cur)),
             Group::Sqlite(g, n) => runtime().block_on(run_op(g, n, t, &self.cur)),
+            Group::Lmdb(g, n) => runtime().block_on(run_op(g, n, t, &self.cur)),
         }
     }
 }
